@@ -1103,6 +1103,7 @@ var c04Stats = map[string]int{}
 //	consumed b packets (its operations fail, its context is cancelled; the survivor reads what was already
 //	sent and then io.EOF); a&2: the survivor's later writes are dropped silently (else they fail)
 //	optional 8th field transport: 1 = util.NewProtoStream over net.Pipe instead of the in-memory stream
+//	optional 9th field: != 0 = the source Opens are held until the sender's listing is complete
 //
 // output: (send recv hung leaks false_success (differing paths) followup err_from_sender err_from_receiver fired bigfan
 //
@@ -1138,6 +1139,9 @@ func run0401(in Sx) (out Sx) {
 	}
 	if len(in.L) > 7 {
 		cfg.Transport = in.L[7].Int()
+	}
+	if len(in.L) > 8 {
+		cfg.OpenGate = in.L[8].IsTrue()
 	}
 	if len(in.L) > 6 && in.L[6].IsTrue() {
 		cfg.SrcDir = filepath.Join(work, "src")
@@ -1415,6 +1419,22 @@ func genC04(g *Gen) {
 			cls += "/protostream-pipe"
 		}
 		emit(c04CaseT(view, prior, kind, a, b, 0, Pick(r, []int{0, 1, 8, 64}), chunk, srckind, transport), cls)
+	}
+	// (d) fault-free transfers of many files whose data lags far behind the listing (source Opens
+	// held until the listing is complete, bounded stream): they must complete
+	for i, nd := 0, g.Vol(2, 40); i < nd; i++ {
+		nf := 300 + r.Intn(500)
+		var view, prior []*MNode
+		for k := 0; k < nf; k++ {
+			f := c04File(fmt.Sprintf("f%04d", k), r.Intn(4), r.U64(), c04Mt+int64(k))
+			view = append(view, f)
+			if r.Chance(10) {
+				prior = append(prior, c04Clone(f))
+			}
+		}
+		in := L(ViewSx(view), ViewSx(prior), L(NI(c04FNone), NI(0), NI(0)), NI(0), Pick(r, []Sx{NI(0), NI(1), NI(8), NI(64)}), NI(1+r.Intn(3)), NI(0), NI(0), NI(1))
+		out := run0401(in)
+		g.EmitWith(0x0401, in, out, true, "fault-free-many-files-opens-held")
 	}
 	// (c) long listings: the entries that follow a synchronously handled entry pile up in the
 	// receiver's walker channel (128) and diff channel (128) while the diff is held on that entry
